@@ -25,7 +25,20 @@ vars == <<s, last>>
 
 -------------------------------------------------------------------------------
 \* type tags
-PodTags     == {"u8", "i32", "u64", "f64", "pod"}        \* written/read by the generic operator: sizeof(T) bytes
+ProbeTags   == {"u8", "i32", "u64", "f64", "pod"}
+\* written/read by the generic operator: sizeof(T) bytes.  Besides the five above: structs of 3, 24 and
+\* (over-aligned, alignas(32)) 32 bytes, and arithmetic values NAMED by a string ("f64x": 0.1, 1/3, a
+\* subnormal, DBL_MAX, DBL_MIN, -inf; "f32x"; "u64x": 2^31 .. SIZE_MAX; "i32x": INT_MIN, INT_MAX) -
+\* values the integer mapping of "f64" / "u64" / "i32" cannot express
+PodTags     == ProbeTags \cup {"pod3", "pod24", "pod32a", "f64x", "f32x", "u64x", "i32x"}
+\* items whose content is DEFINED BY A FORMULA (v = [n, k, b]: n elements, element i is built from the byte
+\* (i * k + b) % 256, k odd), so that lengths at and around 2^8 .. 2^16 cost TLC nothing:
+\*   gbstr std::string of n bytes      gvi std::vector<int> of n ints      graw a raw block of n bytes
+\*   gvs std::vector<std::string> of n strings, string i has i % 3 characters
+\*   gu8burst n separate uint8_t writes (read back by n separate reads)
+\*   gvpod3 std::vector<Pod3>          gOwnedArray<int> an OwnedArray<int> of n ints
+\*   selfbuf: the writer's own buffer (an OwnedArray<uint8_t> of the n bytes written so far) written into itself
+GenTags     == {"gbstr", "gvi", "graw", "gvs", "gu8burst", "gvpod3", "gOwnedArray<int>", "selfbuf"}
 IntArrTags  == {"OwnedArray<int>", "ArrayView<int>", "FixedArray<int>", "AbstractArray<int>&"}
 ByteArrTags == {"FixedArrayView<uint8_t>"}
 ArrTags     == IntArrTags \cup ByteArrTags               \* the array wrapper types: size_t n, then n elements
@@ -35,14 +48,36 @@ ArrTags     == IntArrTags \cup ByteArrTags               \* the array wrapper ty
 \* "vbs" = std::vector<std::string>, "vvbs" = std::vector<std::vector<std::string>> of code lists
 StrTags     == {"str", "cstr", "bstr"}
 VsTags      == {"vs", "vbs"}
-Tags        == PodTags \cup StrTags \cup VsTags \cup {"cstrb", "vvbs", "vi", "vvi", "raw"} \cup ArrTags
+Tags        == PodTags \cup StrTags \cup VsTags \cup {"cstrb", "vvbs", "vi", "vvi", "raw"} \cup ArrTags \cup GenTags
 
 \* The two string overloads have different contracts and both are pinned:
 \*   operator<<(WriteStream&, const std::string&) writes size() bytes - every byte of the string;
 \*   operator<<(WriteStream&, const char*)        writes strlen() bytes - up to the first NUL.
 RECURSIVE CPrefix(_)
 CPrefix(c) == IF c = <<>> \/ Head(c) = 0 THEN <<>> ELSE <<Head(c)>> \o CPrefix(Tail(c))
-Val(it) == IF it.t = "cstrb" THEN CPrefix(it.v) ELSE it.v      \* the value the stream carries for an item
+\* formula-defined content
+GByte(i, g) == (i * g.k + g.b) % 256                    \* i = 0 .. ; period 256 in i, every byte value once per period
+RECURSIVE GPSum(_, _)
+GPSum(m, g) == IF m = 0 THEN 0 ELSE GByte(m - 1, g) + GPSum(m - 1, g)       \* sum of the first m < 256 bytes
+GSumBytes(n, g) == (n \div 256) * 32640 + GPSum(n % 256, g)                  \* 32640 = 0 + 1 + ... + 255
+GvsChars(n) == 3 * (n \div 3) + (IF n % 3 = 2 THEN 1 ELSE 0)                 \* lengths 0, 1, 2, 0, 1, 2, ...
+None == -1000
+\* what is compared for such an item: its length, whether the object read back equals the object written
+\* (observed on the real objects: that is the statement's "yields equal values"), and projections of the
+\* content computed here: first and last element, sum of all elements
+GProj(it) ==
+  LET g == it.v n == g.n IN
+  CASE it.t \in {"gbstr", "graw", "gu8burst"} ->
+         [n |-> n, eq |-> TRUE, first |-> IF n = 0 THEN None ELSE GByte(0, g), last |-> IF n = 0 THEN None ELSE GByte(n - 1, g), sum |-> GSumBytes(n, g)]
+    [] it.t \in {"gvi", "gOwnedArray<int>"} ->
+         [n |-> n, eq |-> TRUE, first |-> IF n = 0 THEN None ELSE GByte(0, g) - 128, last |-> IF n = 0 THEN None ELSE GByte(n - 1, g) - 128,
+          sum |-> GSumBytes(n, g) - 128 * n]
+    [] it.t = "gvpod3" ->
+         [n |-> n, eq |-> TRUE, first |-> IF n = 0 THEN None ELSE GByte(0, g), last |-> IF n = 0 THEN None ELSE GByte(3 * n - 1, g), sum |-> GSumBytes(3 * n, g)]
+    [] it.t = "gvs"     -> [n |-> n, eq |-> TRUE, chars |-> GvsChars(n)]
+    [] it.t = "selfbuf" -> [n |-> n, eq |-> TRUE]
+Val(it) == IF it.t = "cstrb" THEN CPrefix(it.v)             \* the value the stream carries for an item
+           ELSE IF it.t \in GenTags THEN GProj(it) ELSE it.v
 NulIn(c) == \E i \in DOMAIN c : c[i] = 0
 HasNul(it) == CASE it.t \in {"bstr", "cstrb"} -> NulIn(it.v)
                 [] it.t = "vbs"  -> \E i \in DOMAIN it.v : NulIn(it.v[i])
@@ -51,6 +86,8 @@ HasNul(it) == CASE it.t \in {"bstr", "cstrb"} -> NulIn(it.v)
 
 PodSize(t) == CASE t = "u8" -> 1 [] t = "i32" -> 4 [] t = "u64" -> 8 [] t = "f64" -> 8
                 [] t = "pod" -> 12   \* struct { int32_t a; float b; uint8_t c; }: sizeof = 12
+                [] t = "pod3" -> 3 [] t = "pod24" -> 24 [] t = "pod32a" -> 32
+                [] t = "f64x" -> 8 [] t = "f32x" -> 4 [] t = "u64x" -> 8 [] t = "i32x" -> 4
 ElemSize(t) == IF t \in ByteArrTags THEN 1 ELSE 4
 SizeT == 8                                               \* every length prefix is a size_t
 
@@ -72,6 +109,11 @@ EncLen(it) ==
     [] it.t = "vvi"          -> SizeT + SumVecIntEnc(it.v)
     [] it.t = "raw"          -> Len(it.v)                 \* write(mem, n): no framing
     [] it.t \in ArrTags      -> SizeT + ElemSize(it.t) * Len(it.v)
+    [] it.t \in {"gbstr", "selfbuf"} -> SizeT + it.v.n
+    [] it.t \in {"gvi", "gOwnedArray<int>"} -> SizeT + 4 * it.v.n
+    [] it.t \in {"graw", "gu8burst"} -> it.v.n
+    [] it.t = "gvpod3"       -> SizeT + 3 * it.v.n
+    [] it.t = "gvs"          -> SizeT + SizeT * it.v.n + GvsChars(it.v.n)
 
 \* The sizes of the primitive read(mem, n) / getView(n) calls one typed read is
 \* made of (the way any reader of this framing has to proceed: a length first,
@@ -93,11 +135,16 @@ RawParts(it, via) ==
     [] it.t = "raw"          -> <<Len(it.v)>>
     [] it.t \in ArrTags      -> IF via = "view" THEN <<SizeT, ElemSize(it.t) * Len(it.v)>>
                                 ELSE <<SizeT>> \o [i \in 1..Len(it.v) |-> ElemSize(it.t)]
+    [] it.t = "graw"         -> <<it.v.n>>
+    [] it.t = "gu8burst"     -> IF it.v.n <= 1 THEN <<it.v.n>> ELSE <<1, it.v.n - 1>>   \* (the first read, the others)
+    [] it.t \in GenTags      -> <<SizeT, EncLen(it) - SizeT>>                           \* (the length, what it announces)
 Atomic(it, via) == Len(RawParts(it, via)) = 1
 
 \* ways to read an item back
-Vias(it) == IF it.t \in ArrTags THEN {"vec", "view"}       \* std::vector<T> / size_t + getView
-            ELSE IF it.t = "raw" THEN {"read", "view"}     \* read(mem, n) / getView<uint8_t>(n)
+ArrLike == ArrTags \cup {"gOwnedArray<int>"}
+RawLike == {"raw", "graw"}
+Vias(it) == IF it.t \in ArrLike THEN {"vec", "view"}       \* std::vector<T> / size_t + getView
+            ELSE IF it.t \in RawLike THEN {"read", "view"} \* read(mem, n) / getView<uint8_t>(n)
             ELSE {"typed"}                                 \* operator>> into the type written
 
 -------------------------------------------------------------------------------
@@ -115,7 +162,9 @@ RdObs(st) == [cursor |-> st.cursor, end |-> AtEnd(st)]     \* the observable sta
 \* item is accepted and fills the buffer (cap = -1: that writer is not exercised).
 WriteStep(st, it, cap) ==
   LET n == EncLen(it)
-      e == [len |-> n, total |-> st.bytes + n, predicted |-> st.calc + n] IN
+      \* (twin: a second BufferWriter / WriteSizeCalculator pair used alternately with the first by the same
+      \* thread receives the same items: instances do not influence each other)
+      e == [len |-> n, total |-> st.bytes + n, predicted |-> st.calc + n, twin |-> [total |-> st.bytes + n, predicted |-> st.calc + n]] IN
   [s    |-> [st EXCEPT !.items = Append(@, it), !.bytes = @ + n, !.calc = @ + n],
    last |-> [a |-> "Write", arg |-> [item |-> it, cap |-> cap], cls |-> it.t \o (IF HasNul(it) THEN ",nul" ELSE ""), ok |-> TRUE,
              exp |-> IF cap >= 0 THEN e @@ [xfixed |-> [ret |-> "ok", written |-> n, available |-> 0]] ELSE e]]
@@ -179,7 +228,8 @@ ReadStep(st, via, dst, pre) ==
       T    == DstType(it, via)
       cl   == it.t \o ":" \o via
       dc   == DstCls(T, dst, Prior(st, T, dst, pre), Val(it))
-      arg  == [t |-> it.t, via |-> via, n |-> IF it.t = "raw" THEN Len(it.v) ELSE 0,
+      arg  == [t |-> it.t, via |-> via, n |-> IF it.t = "raw" THEN Len(it.v) ELSE IF it.t = "graw" THEN it.v.n ELSE 0,
+               g |-> IF it.t \in GenTags THEN it.v ELSE 0,      \* (the formula's parameters: the reader compares with the object written)
                dst |-> dst, pre |-> IF dst = "prepop" THEN pre ELSE 0]
       holds(x) == IF T \in ScratchTypes THEN [st.scratch EXCEPT ![T] = x] ELSE st.scratch
   IN IF n <= Rem(st)
@@ -203,7 +253,9 @@ ProbeStep(st, t) ==
              exp |-> [ret |-> "throws", st |-> RdObs(st)]]]
 ProbeEnabled(st, t) == st.phase \in {"reading", "drained"} /\ PodSize(t) > Rem(st)
 
-\* ---- getView<uint8_t>(n); n < 0 stands for the size_t value 2^64 + n
+\* ---- getView<uint8_t>(n); n < 0 stands for a size_t value of 2^31 or more: 2^64 + n for n > -2^30, and
+\* SizeCode(j) for 2^31, 2^31 + 1, 2^32 - 1, 2^32, 2^32 + 1, 2^63 (j = 0 .. 5); such a view never fits
+SizeCode(j) == -1073741824 - j
 \* past the data: throws, nothing changes.  n = 0: an empty view.  n = all the
 \* rest: a view of exactly n bytes inside the buffer, the reader is at its end
 \* ("drained": no more typed reads).  Other n would cut items: not specified.
